@@ -13,7 +13,7 @@ import os
 import re
 
 from ..core import AnalysisError, ClassInfo, FuncInfo, Program, call_name, const_value, dotted, unparse, walk_no_nested
-from ..packs import ecc
+from ..packs import ecc, ord_pack
 from ..report import Ctx
 from ..sigtemplate import CHILDREN, AttrRoles, RecordTemplate
 from ..tables import OPERATOR_TABLE
@@ -528,6 +528,8 @@ def run(ctx: Ctx) -> None:
              'availability-guarded denominator)')
     ctx.rule('C01.R7', 'literals: validate_and_convert turns every accepted Python literal into Numeric(that value); Numeric stores float(value) and serialises it')
     ctx.rule('C01.R8', 'engine-call contract of calculator.calculate_function_and_derivatives (roles of every argument handed to pyEvaluateOneExpression)')
+    ctx.rule('C01.R9', 'value vectors follow the id tables (ORD): free_betas_values / fixed_betas_values / bounds are built over the sorted names of the matching kind, '
+             'the same order that defines betaId, so that parameter k of the engine is the parameter whose record carries id k')
     ctx.not_decided += ['the arithmetic of the compiled engine (outside /repo)', 'ConditionalSum terms sharing one condition object collide inside the engine (unordered_map keyed by the condition)']
 
     E = prog.cls(BASE, 'Expression')
@@ -736,6 +738,9 @@ def run(ctx: Ctx) -> None:
     # ---- R8
     n = ecc(ctx, 'C01.R8', only_class='pyEvaluateOneExpression')
     ctx.floor('C01.R8', 9)
+    # ---- R9: the value vectors handed to the engine follow the id tables
+    ord_pack(ctx, 'C01.R9')
+    ctx.floor('C01.R9', 17)
     # sharing: get_id is the identity of the object
     gid = E.methods['get_id']
     ok = unparse(gid.body[-1]) == 'return id(self)'
